@@ -525,3 +525,74 @@ def c06_battery(binary):
         shutil.rmtree(d, ignore_errors=True)
     _memo[("c06", binary)] = devs
     return devs
+
+
+# ------------------------------------------------------------------ C08: which files a dedupe command drops
+
+def c08_battery(binary):
+    """hand-computed expectations for small groups: isolate roots inherited from the report header (also non-canonically spelled),
+    hard-link sets kept or dropped as a whole, keep / drop patterns, -n inherited from `group`, time priorities with distinct mtimes"""
+    import re
+    if ("c08", binary) in _memo:
+        return _memo[("c08", binary)]
+    devs = []
+
+    def dropped(cwd, gargs, dargs, env):
+        g = subprocess.run([binary, "group"] + gargs, cwd=cwd, stdout=subprocess.PIPE, stderr=subprocess.PIPE, env=env, timeout=120)
+        r = subprocess.run([binary, "remove", "--dry-run"] + dargs, cwd=cwd, input=g.stdout, stdout=subprocess.PIPE, stderr=subprocess.PIPE, env=env, timeout=120)
+        if b"panicked" in r.stderr:
+            return None
+        return sorted(os.path.basename(l.decode(errors="replace").split()[-1].strip("'")) for l in r.stdout.splitlines() if l.startswith(b"rm "))
+
+    def check(tag, cwd, gargs, dargs, want, env):
+        got = dropped(cwd, gargs, dargs, env)
+        if got is not None and got != sorted(want):
+            devs.append({"scenario": tag, "group": gargs, "remove": dargs, "would_remove": got, "documented": sorted(want)})
+
+    d = tempfile.mkdtemp(prefix="c08b.", dir="/var/tmp")
+    try:
+        env = mkenv(d)
+        os.makedirs(os.path.join(d, "tmp"))
+        # A: isolate roots from the header
+        w = os.path.join(d, "A")
+        for sub, names in (("a", ("x", "y")), ("b", ("z",)), ("c", ("w",))):
+            os.makedirs(os.path.join(w, sub))
+            for n in names:
+                open(os.path.join(w, sub, n), "wb").write(b"S" * 500)
+        os.symlink("a", os.path.join(w, "la"))
+        for roots in (["a", "b", "c"], ["la", "b", "c"], ["b/../a", "b", "c"], ["./a/", "b", "c"]):
+            check("isolate roots inherited from the header, roots spelled %s" % roots, w, ["--isolate"] + roots, [], ["z", "w"], env)
+        check("isolate roots given to remove explicitly (relative)", w, ["a", "b", "c"], ["--isolate", "a", "--isolate", "b", "--isolate", "c"], ["z", "w"], env)
+        check("isolate roots given to remove explicitly (absolute)", w, ["a", "b", "c"], ["--isolate", os.path.join(w, "a"), "--isolate", os.path.join(w, "b"), "--isolate", os.path.join(w, "c")], ["z", "w"], env)
+        check("isolate roots given to remove explicitly (through a symlink)", w, ["a", "b", "c"], ["--isolate", os.path.join(w, "la"), "--isolate", os.path.join(w, "b"), "--isolate", os.path.join(w, "c")], ["z", "w"], env)
+        # B: hard-link set, keep pattern, n = 2 from the header
+        w = os.path.join(d, "B")
+        os.makedirs(w)
+        open(os.path.join(w, "a1"), "wb").write(b"H" * 400)
+        os.link(os.path.join(w, "a1"), os.path.join(w, "a2"))
+        open(os.path.join(w, "b"), "wb").write(b"H" * 400)
+        open(os.path.join(w, "c"), "wb").write(b"H" * 400)
+        check("hard-link set kept by a pattern counts as one replica (n = 2 inherited)", w, ["-n", "2", "."], ["--keep-name", "a*"], ["c"], env)
+        check("hard-link set is dropped as a whole", w, ["."], ["--keep-name", "b"], ["a1", "a2", "c"], env)
+        check("only files matching --name may be dropped", w, ["."], ["--name", "c"], ["c"], env)
+        check("n = 2 inherited from the header, report order", w, ["-n", "2", "."], [], ["c"], env)
+        check("--match-links inherited: every path is a replica", w, ["--match-links", "-n", "2", "."], [], ["b", "c"], env)
+        # C: priorities
+        w = os.path.join(d, "C")
+        os.makedirs(os.path.join(w, "deep", "er"))
+        spec = (("k1", 1_500_000_000, "."), ("k2", 1_600_000_000, "deep"), ("k3", 1_400_000_000, "deep/er"))
+        for n, t, sub in spec:
+            p = os.path.join(w, sub, n)
+            open(p, "wb").write(b"P" * 300)
+            os.utime(p, (t, t))
+        check("--priority most-recently-modified", w, ["-n", "2", "."], ["--priority", "most-recently-modified"], ["k2"], env)
+        check("--priority least-recently-modified", w, ["-n", "2", "."], ["--priority", "least-recently-modified"], ["k3"], env)
+        check("--priority most-nested", w, ["-n", "2", "."], ["--priority", "most-nested"], ["k3"], env)
+        check("--priority least-nested", w, ["-n", "2", "."], ["--priority", "least-nested"], ["k1"], env)
+        check("--priority most-recently-modified, n = 1", w, ["."], ["--priority", "most-recently-modified"], ["k2", "k1"], env)
+        check("--priority least-recently-modified, n = 1", w, ["."], ["--priority", "least-recently-modified"], ["k3", "k1"], env)
+        check("chained priorities: the first one dominates", w, ["."], ["--priority", "least-recently-modified", "--priority", "most-nested"], ["k3", "k1"], env)
+    finally:
+        shutil.rmtree(d, ignore_errors=True)
+    _memo[("c08", binary)] = devs
+    return devs
